@@ -248,6 +248,187 @@ proof fn lemma_dec_enc_uint(v: nat, r: Seq<u8>)
     lemma_be_min_val(v);
 }
 
+// ---------- L2 (flat): lists whose items are strings - the shape of every legacy transaction and of the key list
+// of an access-list entry.  A strict decoder reads the list header, then the items one after the other, and must
+// consume the payload completely. ----------
+pub open spec fn dec_list(s: Seq<u8>) -> Option<(Seq<u8>, Seq<u8>)> {
+    if s.len() == 0 || s[0] < 0xc0 {
+        None
+    } else if s[0] <= 0xf7 {
+        let n = (s[0] - 0xc0) as int;
+        if s.len() < 1 + n { None } else { Some((s.subrange(1, 1 + n), s.subrange(1 + n, s.len() as int))) }
+    } else {
+        let ll = (s[0] - 0xf7) as int;
+        if s.len() < 1 + ll { None }
+        else {
+            let lb = s.subrange(1, 1 + ll);
+            let n = be_val(lb) as int;
+            if lb[0] == 0 || n < 56 || s.len() < 1 + ll + n { None }
+            else { Some((s.subrange(1 + ll, 1 + ll + n), s.subrange(1 + ll + n, s.len() as int))) }
+        }
+    }
+}
+/// concatenation of the string encodings of bs, front to back
+pub open spec fn cat_enc(bs: Seq<Seq<u8>>) -> Seq<u8> decreases bs.len() {
+    if bs.len() == 0 { Seq::<u8>::empty() } else { enc_str(bs[0]) + cat_enc(bs.skip(1)) }
+}
+/// strictly decode string items until `s` is used up (fuel bounds the number of items; every item is >= 1 byte, so
+/// fuel = |s| is always enough: dec_all)
+pub open spec fn dec_strs(s: Seq<u8>, fuel: nat) -> Option<Seq<Seq<u8>>> decreases fuel {
+    if s.len() == 0 {
+        Some(Seq::<Seq<u8>>::empty())
+    } else if fuel == 0 {
+        None
+    } else {
+        match dec_str(s) {
+            None => None,
+            Some(br) => match dec_strs(br.1, (fuel - 1) as nat) {
+                None => None,
+                Some(tail) => Some(seq![br.0] + tail),
+            },
+        }
+    }
+}
+pub open spec fn dec_all(s: Seq<u8>) -> Option<Seq<Seq<u8>>> { dec_strs(s, s.len()) }
+
+proof fn lemma_enc_str_nonempty(b: Seq<u8>)
+    ensures enc_str(b).len() >= 1
+{
+    if b.len() == 1 && b[0] < 0x80 {} else {
+        assert(hdr(b.len(), 0x80).len() >= 1);
+    }
+}
+proof fn lemma_cat_enc_len(bs: Seq<Seq<u8>>)
+    ensures cat_enc(bs).len() >= bs.len()
+    decreases bs.len()
+{
+    if bs.len() > 0 {
+        lemma_enc_str_nonempty(bs[0]);
+        lemma_cat_enc_len(bs.skip(1));
+    }
+}
+proof fn lemma_dec_strs_cat(bs: Seq<Seq<u8>>, fuel: nat)
+    requires fuel >= bs.len(), forall|i: int| 0 <= i < bs.len() ==> #[trigger] bs[i].len() <= usize::MAX
+    ensures dec_strs(cat_enc(bs), fuel) == Some(bs)
+    decreases bs.len()
+{
+    if bs.len() == 0 {
+        assert(cat_enc(bs).len() == 0);
+        assert(bs =~= Seq::<Seq<u8>>::empty());
+    } else {
+        let rest = bs.skip(1);
+        assert forall|i: int| 0 <= i < rest.len() implies #[trigger] rest[i].len() <= usize::MAX by {
+            assert(rest[i] == bs[i + 1]);
+        }
+        lemma_dec_strs_cat(rest, (fuel - 1) as nat);
+        lemma_dec_enc_str(bs[0], cat_enc(rest));
+        lemma_enc_str_nonempty(bs[0]);
+        let s = cat_enc(bs);
+        assert(s == enc_str(bs[0]) + cat_enc(rest));
+        assert(s.len() > 0);
+        assert(dec_str(s) == Some((bs[0], cat_enc(rest))));
+        assert(seq![bs[0]] + rest =~= bs);
+    }
+}
+// L1 for the list header: the strict decoder splits hdr(|p|, 0xc0) ++ p ++ r into exactly (p, r)
+proof fn lemma_dec_list_hdr(p: Seq<u8>, r: Seq<u8>)
+    requires p.len() <= usize::MAX
+    ensures dec_list(hdr(p.len(), 0xc0) + p + r) == Some((p, r))
+{
+    let h = hdr(p.len(), 0xc0);
+    let s = h + p + r;
+    let n = p.len() as int;
+    if p.len() < 56 {
+        assert(h.len() == 1);
+        assert(s[0] == (0xc0 + p.len()) as u8);
+        assert(s.subrange(1, 1 + n) =~= p);
+        assert(s.subrange(1 + n, s.len() as int) =~= r);
+    } else {
+        let l = be_min(p.len());
+        lemma_be_min_val(p.len());
+        lemma_be_min_len_le8(p.len());
+        let ll = l.len() as int;
+        assert(1 <= ll <= 8);
+        assert(h == seq![(0xc0 + 55 + l.len()) as u8] + l);
+        assert(s[0] == (0xf7 + ll) as u8);
+        assert(s.subrange(1, 1 + ll) =~= l);
+        assert(s.subrange(1 + ll, 1 + ll + n) =~= p);
+        assert(s.subrange(1 + ll + n, s.len() as int) =~= r);
+    }
+}
+// the back-to-front `flat` used by the contract of rlp::list is the front-to-back concatenation
+pub open spec fn views(items: Seq<&[u8]>) -> Seq<Seq<u8>> { Seq::new(items.len(), |i: int| items[i]@) }
+pub open spec fn cat(xs: Seq<Seq<u8>>) -> Seq<u8> decreases xs.len() {
+    if xs.len() == 0 { Seq::<u8>::empty() } else { xs[0] + cat(xs.skip(1)) }
+}
+proof fn lemma_cat_push(xs: Seq<Seq<u8>>, x: Seq<u8>)
+    ensures cat(xs.push(x)) == cat(xs) + x
+    decreases xs.len()
+{
+    if xs.len() == 0 {
+        assert(xs.push(x).skip(1) =~= Seq::<Seq<u8>>::empty());
+        assert(xs.push(x)[0] == x);
+        assert(cat(xs.push(x)) == x + cat(xs.push(x).skip(1)));
+        assert(cat(xs.push(x).skip(1)) == Seq::<u8>::empty());
+        assert(cat(xs.push(x)) =~= x);
+        assert(cat(xs) + x =~= x);
+    } else {
+        assert(xs.push(x).skip(1) =~= xs.skip(1).push(x));
+        lemma_cat_push(xs.skip(1), x);
+        assert(xs.push(x)[0] == xs[0]);
+        assert(cat(xs.push(x)) =~= xs[0] + (cat(xs.skip(1)) + x));
+        assert(cat(xs) + x =~= xs[0] + (cat(xs.skip(1)) + x));
+    }
+}
+proof fn lemma_flat_is_cat(items: Seq<&[u8]>)
+    ensures flat(items) == cat(views(items)), total(items) == cat(views(items)).len()
+    decreases items.len()
+{
+    if items.len() == 0 {
+        assert(views(items) =~= Seq::<Seq<u8>>::empty());
+    } else {
+        lemma_flat_is_cat(items.drop_last());
+        assert(views(items) =~= views(items.drop_last()).push(items.last()@));
+        lemma_cat_push(views(items.drop_last()), items.last()@);
+    }
+}
+proof fn lemma_cat_of_encodings(bs: Seq<Seq<u8>>)
+    ensures cat(Seq::new(bs.len(), |i: int| enc_str(bs[i]))) == cat_enc(bs)
+    decreases bs.len()
+{
+    let es = Seq::new(bs.len(), |i: int| enc_str(bs[i]));
+    if bs.len() == 0 {
+    } else {
+        lemma_cat_of_encodings(bs.skip(1));
+        assert(es.skip(1) =~= Seq::new(bs.skip(1).len(), |i: int| enc_str(bs.skip(1)[i])));
+        assert(es[0] == enc_str(bs[0]));
+    }
+}
+/// THEOREM (flat lists): if `out` is what rlp::list returns (its contract: out == enc_list(items)) for items that are the
+/// string encodings of the byte strings bs (the contracts of rlp::bytes / rlp::uint), then a strict decoder accepts `out`,
+/// consumes it completely and returns exactly bs.
+proof fn theorem_flat_list_round_trip(items: Seq<&[u8]>, bs: Seq<Seq<u8>>, out: Seq<u8>)
+    requires
+        out == enc_list(items),
+        items.len() == bs.len(),
+        forall|i: int| 0 <= i < bs.len() ==> #[trigger] items[i]@ == enc_str(bs[i]),
+        forall|i: int| 0 <= i < bs.len() ==> #[trigger] bs[i].len() <= usize::MAX,
+        total(items) <= usize::MAX,
+    ensures
+        dec_list(out) matches Some(pr) && pr.1.len() == 0 && dec_all(pr.0) == Some(bs),
+{
+    lemma_flat_is_cat(items);
+    assert(views(items) =~= Seq::new(bs.len(), |i: int| enc_str(bs[i])));
+    lemma_cat_of_encodings(bs);
+    let p = cat_enc(bs);
+    assert(flat(items) == p);
+    assert(total(items) == p.len());
+    lemma_dec_list_hdr(p, Seq::<u8>::empty());
+    assert(out =~= hdr(p.len(), 0xc0) + p + Seq::<u8>::empty());
+    lemma_cat_enc_len(bs);
+    lemma_dec_strs_cat(bs, p.len());
+}
+
 // ---------- dependency / std interface contracts (ASSUMED here; cross-checked on the real
 // usize / ethnum code by complete Kani harnesses xc_* in contracts/kani/src/transaction/rlp.rs) ----------
 #[verifier::external_body]
